@@ -6,7 +6,7 @@
    EIDs with arbitrary UTF-8 names, full-range u64 fields, fragment and non-fragment primaries, known and
    unknown block types with arbitrary data. *)
 From BP7 Require Import Base.Prelude Gen.Consts Cbor.Item Spec.Vectors.
-From BP7 Require Import Model.Types Model.Encode Model.Decode Model.Wf Proofs.CodecProofs.
+From BP7 Require Import Model.Types Model.Encode Model.Decode Model.Wf Proofs.CodecProofs Proofs.CodecSerdeRoute.
 
 Theorem C01_roundtrip : forall b, wf_bundle b = true ->
   let '(bs, b') := to_cbor b in
@@ -21,6 +21,15 @@ Proof. exact to_cbor_idempotent. Qed.
 Theorem C01_decode_encode : forall b, wf_bundle b = true -> crcs_filled b = true -> from_cbor (bundle_bytes b) = Ok b.
 Proof. exact from_cbor_bundle_bytes. Qed.
 
+(* the crate's SECOND public encoding route - serde's `Serialize for Bundle`, i.e. serde_cbor::to_vec(&bundle): a definite-length outer array
+   whose head has 1, 2, 3, 5 or 9 bytes - decodes to the same bundle as well (block count below 2^64 - 1: the array head is a u64) *)
+Theorem C01_serde_route : forall b, wf_bundle b = true -> Nlen (b_canonicals b) < two64 - 1 ->
+  from_cbor (bundle_bytes_serde (snd (to_cbor b))) = Ok (snd (to_cbor b)).
+Proof. exact serde_route_roundtrip. Qed.
+Theorem C01_serde_route_filled : forall b, wf_bundle b = true -> crcs_filled b = true -> Nlen (b_canonicals b) < two64 - 1 ->
+  from_cbor (bundle_bytes_serde b) = Ok b.
+Proof. exact from_cbor_bundle_bytes_serde. Qed.
+
 (* non-vacuity: concrete bundles in the domain, including one with 30 extension blocks (beyond 23) *)
 Fixpoint many_blocks (n : nat) : list canonical :=
   match n with
@@ -34,9 +43,17 @@ Example C01_ex_wf : wf_bundle ex_bundle = true /\ wf_bundle golden_bundle = true
 Proof. vm_compute. repeat split; reflexivity. Qed.
 Example C01_ex_roundtrip : from_cbor (fst (to_cbor ex_bundle)) = Ok (snd (to_cbor ex_bundle)).
 Proof. vm_compute. reflexivity. Qed.
+Example C01_ex_serde_route :       (* 34 elements: a two-byte array head 0x98 0x22 *)
+  firstn 2 (bundle_bytes_serde (snd (to_cbor ex_bundle))) = map n2b [152; 34]
+  /\ from_cbor (bundle_bytes_serde (snd (to_cbor ex_bundle))) = Ok (snd (to_cbor ex_bundle)).
+Proof. vm_compute. split; reflexivity. Qed.
 
 Check C01_roundtrip : forall b, wf_bundle b = true ->
   let '(bs, b') := to_cbor b in from_cbor bs = Ok b' /\ only_crc_changed b b' /\ crcs_filled b' = true.
 Print Assumptions C01_roundtrip.
 Print Assumptions C01_deterministic_idempotent.
+Check C01_serde_route : forall b, wf_bundle b = true -> Nlen (b_canonicals b) < two64 - 1 ->
+  from_cbor (bundle_bytes_serde (snd (to_cbor b))) = Ok (snd (to_cbor b)).
 Print Assumptions C01_decode_encode.
+Print Assumptions C01_serde_route.
+Print Assumptions C01_serde_route_filled.
